@@ -438,7 +438,9 @@ def _decider_paths(ctx: Ctx, f: FunctionInfo):
     env.sub_hooks.append(sub_hook)
     env.comp_hooks.append(comp_hook)
     env.bool_hooks.append(bool_hook)
-    env.hooks.append(make_inline_hook(ctx.prog, f.cls, f.module, skip=("get_distance_to_terminal",)))
+    ih = make_inline_hook(ctx.prog, f.cls, f.module, skip=("get_distance_to_terminal",))
+    env.hooks.append(ih)
+    env.assume_hooks.append(ih.assume)
     outs = interp(f.node.body, env)
     return outs, (d, M, c)
 
